@@ -34,7 +34,8 @@ TLine(k) ==
   /\ ~AtEnd(k)
   /\ LET e == O.logs[k][lc[k] + 1] IN
        /\ e.i = ppc[k]
-       /\ IF e.op = "T" THEN Ret(k, e.ret) ELSE (Step(k, e.op, e.ret) \/ EndStep(k, e.op, e.ret))
+       /\ IF e.op \in {"T", "N"} THEN e.op = POp(k).k /\ Ret(k, e.ret)
+                               ELSE (Step(k, e.op, e.ret) \/ EndStep(k, e.op, e.ret))
   /\ lc' = [lc EXCEPT ![k] = @ + 1] /\ UNCHANGED <<t, tc>>
 TSilent ==
   /\ \/ \E k \in PTasks : AtEnd(k) /\ (RetUnseen(k) \/ StepUnseen(k) \/ FilterKill(k))
